@@ -63,7 +63,8 @@ def scan(ctx, what, emitted, tn, case, cls):
 
 
 def emit_all(w, tn, rnd, private, account, s, e):
-    """Everything network-tagged the wallet can say, as a dict of named outputs."""
+    """Everything network-tagged the wallet can say, as a dict of named outputs; the requests are issued in a RANDOM
+    order on the same wallet object (state left by one request must not change the network tag of another)."""
     out = {}
     master = w.master
     paths = [[]]
@@ -71,26 +72,47 @@ def emit_all(w, tn, rnd, private, account, s, e):
         L = rnd.randrange(1, 5)
         paths.append([rnd.choice([0, 1, 44 + H, 49 + H, 84 + H, H, H + 1, rnd.randrange(0, 2 * H)]) if private
                       else rnd.choice([0, 1, rnd.randrange(0, H)]) for _ in range(L)])
+    jobs = []
+
+    def path_job(p):
+        def run():
+            node = master.derive_path(index_list=list(p))
+            key = rpath.fmt(p)
+            out["addresses:" + key] = [getattr(w, k + "_address")(node) for k in KINDS]
+            out["pk_address:" + key] = [node.public_key.address(testnet=w.testnet, addr_type=t) for t in ("p2pkh", "p2wpkh")]
+            nk = w.node_extended_keys(node)
+            out["node_extended_keys:" + key] = [nk["pub"], nk["prv"]]   # (the 'path' text of arbitrary nodes is not BIP44-shaped output)
+            out["default_xpub:" + key] = node.extended_public_key()
+            if private:
+                out["default_xprv:" + key] = node.extended_private_key()
+                out["wif:" + key] = node.private_key.wif(testnet=w.testnet)
+            out["group:" + key] = [r[1:] for r in w.group(nodes=[node], addr_fnc=w.p2sh_p2wpkh_address)]
+        return run
     for p in paths:
-        node = master.derive_path(index_list=list(p))
-        key = rpath.fmt(p)
-        out["addresses:" + key] = [getattr(w, k + "_address")(node) for k in KINDS]
-        out["pk_address:" + key] = [node.public_key.address(testnet=w.testnet, addr_type=t) for t in ("p2pkh", "p2wpkh")]
-        nk = w.node_extended_keys(node)
-        out["node_extended_keys:" + key] = [nk["pub"], nk["prv"]]   # (the 'path' text of arbitrary nodes is not BIP44-shaped output)
-        out["default_xpub:" + key] = node.extended_public_key()
-        if private:
-            out["default_xprv:" + key] = node.extended_private_key()
-            out["wif:" + key] = node.private_key.wif(testnet=w.testnet)
-        out["group:" + key] = [r[1:] for r in w.group(nodes=[node], addr_fnc=w.p2sh_p2wpkh_address)]
+        jobs.append(path_job(p))
     if private:
-        g = w.generate(account=account, interval=(s, e))
-        out["generate"] = {k: v for k, v in g.items() if k != "BIP85"}
-        out["json"] = {k: v for k, v in json.loads(w.json(data=g)).items() if k != "BIP85"}
-        out["wasabi"] = json.loads(w.wasabi_json())["ExtPubKey"]
+        def gen_job():
+            g = w.generate(account=account, interval=(s, e))
+            out["generate"] = {k: v for k, v in g.items() if k != "BIP85"}
+            out["json"] = {k: v for k, v in json.loads(w.json(data=g)).items() if k != "BIP85"}
+
+        def wasabi_job():
+            out["wasabi"] = json.loads(w.wasabi_json())["ExtPubKey"]
+
+        def by_path_other_coin_job():
+            # a lookup under the OTHER network's coin type (legal), before/after the BIP44/49/84 requests
+            other = 0 if tn else 1
+            n = w.by_path("m/%d'/%d'/%d'/0/1" % (rnd.choice([44, 49, 84]), other, account if account < H else 0))
+            out["default_xpub:othercoin"] = n.extended_public_key()
+        jobs += [gen_job, wasabi_job, by_path_other_coin_job]
         for name in ("bip44", "bip49", "bip84"):
-            keys, rows = getattr(w, name)(account=account, interval=(s, e))
-            out[name] = [keys, rows]
+            def bip_job(name=name):
+                keys, rows = getattr(w, name)(account=account, interval=(s, e))
+                out[name] = [keys, rows]
+            jobs.append(bip_job)
+    rnd.shuffle(jobs)
+    for j in jobs:
+        j()
     return out
 
 
